@@ -1,1 +1,20 @@
-fn main(){}
+//! In-process checks against `varlink_parser` (C10-C12).
+use vl_model::ctx::parse_args;
+
+mod c10;
+mod c11;
+mod c12;
+
+fn main() {
+    let args = parse_args();
+    std::panic::set_hook(Box::new(|_| {}));
+    match args.id.as_str() {
+        "C10" => c10::run(&args),
+        "C11" => c11::run(&args),
+        "C12" => c12::run(&args),
+        other => {
+            eprintln!("vl-idl: unknown property {}", other);
+            std::process::exit(2)
+        }
+    }
+}
